@@ -104,9 +104,9 @@ CFG = dict(
             "e2e:combo:dup+first-mustwithdraw": 120, "e2e:combo:dup+first-discardable": 75, "e2e:combo:dup+later": 150,
             "e2e:clause:dup-first-discardable:kept-without-attr": 60,
         }),
-    quick=[e1("all", "c05", "debug", 1, 40), e1("all", "c05", "release", 1, 40),
-           e2("e2e-sock", "event::verif::c05::run", 1, 30, mode="socket"),
-           e2("e2e-direct", "event::verif::c05::run", 1, 30, mode="direct")],
+    quick=[e1("all", "c05", "debug", 1, 120), e1("all", "c05", "release", 1, 120),
+           e2("e2e-sock", "event::verif::c05::run", 1, 120, mode="socket"),
+           e2("e2e-direct", "event::verif::c05::run", 1, 120, mode="direct")],
     thorough=[e1("dbg", "c05", "debug", 8, 200),
               dict(e1("rel", "c05", "release", 8, 200), seed_offset=100),
               dict(e1("miri", "c05", "debug", 2, 120, flavor="miri", scale=0.001), seed_offset=200),
